@@ -86,7 +86,7 @@ impl Prop for C20 {
         vec!["Accuracy: standard error of a 256-register HLL is about 6.5%, so the 40% envelope is > 6 sigma; the elements come from a splitmix64 stream seeded by the (seeded) proptest RNG.".into()]
     }
     fn cases(&self, tier: Tier) -> u32 {
-        tier.pick(8_000, 300_000)
+        tier.pick(150_000, 1_000_000)
     }
     fn enumerated_subspaces(&self, _tier: Tier) -> Vec<String> {
         vec![
